@@ -1,0 +1,1 @@
+//! Hooks of group 'integrity' for the /verif machinery.
